@@ -114,6 +114,35 @@ def probe_vector(rng):
     return out
 
 
+def compare_probe(rng):
+    """LDr #v ; [0-1 harmless instructions] ; CPr #k ; <branch on Z, protected or not> ; <branch on carry> ; observers.
+    Exercises the rules that fold a compare of a register whose constant is known: the carry of the
+    compare may still be needed by a following BCC / BCS even when the Z branch is decided."""
+    reg = rng.choice("AXY")
+    ld = "LD" + reg
+    cp = "CMP" if reg == "A" else "CP" + reg
+    v = rng.choice([0, 1, 5, 200])
+    k = rng.choice([0, 1, 5, 6, 200])
+    out = []
+    if rng.random() < 0.5:
+        # something that leaves the carry in a data-dependent state
+        out += [I("LDA", "v", 2, 3), I("CLC", "", 1, 2), I("ADC", "w", 2, 3), I("STA", "res2", 2, 3)]
+    out.append(I(ld, "#%d" % v, 2, 2))
+    if rng.random() < 0.3:
+        out.append(I(rng.choice(["INC", "DEC"]), "w", 2, 5))
+    out.append(I(cp, "#%d" % k, 2, 2))
+    zb = rng.choice(["BEQ", "BNE"])
+    carry_user = rng.random() < 0.7
+    # the generator's discipline (generate_branch_instruction): a Z branch whose compare also feeds a
+    # carry branch is emitted `protected`; an unprotected one declares the carry dead — only vectors
+    # that respect it are inside the optimiser's contract
+    out.append(I(zb, ".h", 2, 2, 3, True if carry_user else rng.random() < 0.5))
+    if carry_user:
+        out.append(I(rng.choice(["BCS", "BCC"]), ".t", 2, 2, 3, rng.random() < 0.3))
+    out += [I("INC", "res", 2, 5), L(".h"), I("INC", "res", 2, 5), I("INC", "res", 2, 5), L(".t")]
+    return out
+
+
 VEC_ENV = {"cctmp": 0x80, "v": 0x90, "w": 0x91, "p": 0x92, "res": 0x94, "res2": 0x95, "arr": 0xA0, "tab": 0xB0}
 
 
@@ -133,7 +162,9 @@ def run_vector(model, pid, lines, rs_seed, nstates=6):
         for ad in list(range(0x90, 0x92)) + list(range(0x94, 0x96)) + list(range(0xA0, 0xD0)):
             mem[ad] = rs.choice([0, 1, 3, 255, rs.randrange(256)])
         x, y = rs.randrange(8), rs.randrange(8)
-        r = model.req("run %s %s 400 %d %d %d 0 | %s | 128:1 144:6 160:48" % (pid, hx("f"), rs.randrange(256), x, y, " ".join("%d=%d" % kv for kv in sorted(mem.items()))))
+        # the flags on entry are arbitrary too (N=128 V=64 Z=2 C=1): code must not depend on them
+        pf = rs.choice([0, 1, 2, 3, 128, 129, 64, 195])
+        r = model.req("run %s %s 400 %d %d %d %d | %s | 128:1 144:6 160:48" % (pid, hx("f"), rs.randrange(256), x, y, pf, " ".join("%d=%d" % kv for kv in sorted(mem.items()))))
         f = r.split(" ")
         if f[0] != "ok" or f[1] != "done":
             outs.append(None)
